@@ -371,3 +371,113 @@ def bfs(cfg, vio, max_states=20000, pkg=True, spec=True):
     finally:
         sandbox.drop_captured_exit_handlers()
         sandbox.rm(d)
+
+
+def run_two_scale(cfg, order0, order1, vio, pkg=True, spec=True):
+    """the pattern compute_dyadic_scales uses on one accessor object: store
+    chunks of scale s0, close, store chunks of scale s1, close, close again
+    (must be a no-op). Both scales are then checked like a one-scale
+    dataset. Returns the directory digest or None."""
+    size1 = [-(-x // 2) for x in cfg["size"]]
+    chunks0 = chunk_list(cfg["size"], cfg["chunk"])
+    chunks1 = chunk_list(size1, cfg["chunk"])
+    d = new_dataset_dir(cfg, two_scales=True)
+    case = case_of(cfg, order0, order_s1=list(order1), family="two-scale")
+    try:
+        acc = open_writer(d, cfg["strategy"])
+        try:
+            for i in order0:
+                acc.store_chunk(payload(i), KEY, chunks0[i][1])
+            with sandbox.quiet():
+                acc.close()
+            mid = dir_digest(d)
+            for i in order1:
+                acc.store_chunk(payload(i + 50), "s1", chunks1[i][1])
+            with sandbox.quiet():
+                acc.close()
+            after = dir_digest(d)
+            with sandbox.quiet():
+                acc.close()
+        except Exception as exc:
+            vio.add("C05/two-scale/exception/" + type(exc).__name__, case,
+                    "stored and closed", repr(exc)[:300])
+            return None
+        if dir_digest(d) != after:
+            vio.add("C05/two-scale/repeated-close-changed-the-files", case,
+                    "no-op", "files changed")
+        for rel, h in mid.items():
+            if after.get(rel) != h:
+                vio.add("C05/two-scale/closing-the-second-scale-changed-the-"
+                        "first", case, "scale s0 files unchanged", rel)
+        v0 = Violations()
+        check_closed(cfg, d, set(order0), chunks0, order0, v0, pkg, spec)
+        v1 = Violations()
+        # payload(i + 50) was stored for scale s1: compare by re-keying
+        _check_scale(cfg, d, "s1", set(order1), chunks1, 50, case, v1, pkg,
+                     spec)
+        for sig, c, e, o in v0.items + v1.items:
+            c = dict(c, order_s1=list(order1), family="two-scale")
+            vio.add(sig, c, e, o)
+        return after
+    finally:
+        sandbox.drop_captured_exit_handlers()
+        sandbox.rm(d)
+
+
+def _check_scale(cfg, d, key, stored, chunks, off, case, vio, pkg, spec):
+    """package reader + spec reader on one further scale whose payloads are
+    payload(i + off)"""
+    mb, sb, pb = cfg["triple"]
+    if pkg:
+        from neuroglancer_scripts import accessor
+        try:
+            rd = accessor.get_accessor_for_url(d)
+            drop = sandbox.drop_captured_exit_handlers
+            drop()
+        except Exception as exc:
+            vio.add("C05/reopen/exception/" + type(exc).__name__, case,
+                    "accessor", repr(exc)[:300])
+            rd = None
+        if rd is not None:
+            for i, cc, cid in chunks:
+                c2 = dict(case, fetch=i, scale=key)
+                try:
+                    got = rd.fetch_chunk(key, cc)
+                except Exception as exc:
+                    if i in stored:
+                        vio.add("C05/fetch/stored-chunk-not-readable/"
+                                + type(exc).__name__, c2, "the stored bytes",
+                                repr(exc)[:300])
+                    continue
+                if i in stored:
+                    if bytes(got) != bytes(payload(i + off)):
+                        vio.add("C05/fetch/wrong-bytes", c2,
+                                bytes(payload(i + off)).hex(),
+                                bytes(got).hex()[:200])
+                elif len(got) != 0:
+                    vio.add("C05/unstored-chunk-returned-data", c2,
+                            "exception or empty", bytes(got).hex()[:200])
+    if spec:
+        sdir = os.path.join(d, key)
+        params = {"minishard_bits": mb, "shard_bits": sb,
+                  "preshift_bits": pb,
+                  "minishard_index_encoding": cfg["index_enc"],
+                  "data_encoding": cfg["data_enc"]}
+        rd = shard_spec.SpecReader(sdir, params)
+        for i, cc, cid in chunks:
+            c2 = dict(case, fetch=i, scale=key)
+            try:
+                got = rd.fetch(cid)
+            except shard_spec.SpecViolation as exc:
+                vio.add("C04/spec/" + exc.tag, c2, "well-formed shard",
+                        str(exc)[:300])
+                continue
+            if i in stored and got is None:
+                vio.add("C04/spec/stored-chunk-not-found", c2,
+                        "chunk id %d" % cid, "no entry")
+            elif i in stored and got != bytes(payload(i + off)):
+                vio.add("C04/spec/wrong-bytes", c2,
+                        bytes(payload(i + off)).hex(), got.hex()[:200])
+            elif i not in stored and got:
+                vio.add("C04/spec/unstored-chunk-has-data", c2, "absent",
+                        got.hex()[:200])
